@@ -5,7 +5,7 @@
    monitors alone, on the implementation's observations - here C01 data integrity (every emitted
    segment is the slice of the written stream its sequence number names; reads are a prefix of the
    peer's stream); the C04 check judges traces of the same kind by its window / MSS monitor.  In the trace the
-   notification appears as an application write of zero bytes.  Labelled monitor-only in the evidence. *)
+   notification appears as an application write accepted for zero bytes (see is_mtu_step).  Labelled monitor-only in the evidence. *)
 From Coq Require Import ZArith List Bool.
 From NP Require Export Model.Seqnum Model.Tcp Corr.TcpTrace.
 From NP Require Corr.C01 Corr.C14tcp.
@@ -18,11 +18,15 @@ Definition case := TcpTrace.case.
    check (Corr/C04mtu.v) *)
 Definition spec (c : case) : Z := C01.spec c.
 
+(* an MTU notification: a "write" accepted for 0 bytes whose "data" are the reported next-hop MTUs
+   + 1000 (no byte of a real write is that large) *)
 Definition is_mtu_step (o : obs) : bool :=
   match o_ev o, o_res o with
-  | EWrite [], RCount 0 => true
+  | EWrite (m :: _), RCount 0 => 1000 <=? m
   | _, _ => false
   end.
+Definition reported_mtus (o : obs) : list Z :=
+  match o_ev o with EWrite l => map (fun m => m - 1000) l | _ => [] end.
 
 (* C01's classes (1 data read, 2 data sent) + 4: an MTU notification was followed by emitted data *)
 Definition tag (c : case) : Z :=
